@@ -1029,7 +1029,10 @@ class StructArray(FieldValidator, abc.Sequence, Generic[_S]):
             )
 
         if _VALIDATION_ENABLED.get():
-            if isinstance(value, abc.Iterable) or hasattr(value, "__getitem__"):
+            # a slice takes a sequence of structs, an index takes one struct (an
+            # empty sequence assigned to an index has nothing to check, and ctypes
+            # would build a zeroed element from it)
+            if isinstance(key, slice):
                 self.validate_many(value)
             else:
                 self.validate_one(value)
